@@ -525,6 +525,12 @@ def _path_form(ctx, rule, f, local, who):
             dot = [c.get("v") for c in alt.consts() if c.get("k") == "str"]
             if "join" in names:
                 ok = dot == ["."] and set(names) <= {"join", "new", "file_name", "path", "as_ref", "deref"} and any(c.a["callee"].endswith("WalkEntry::path") for c in alt.call_nodes())
+                if not ok and dot == ["."] and set(names) <= {"join", "new", "file_name", "path", "as_ref", "deref", "unwrap_or", "as_os_str"}:
+                    # `path.file_name().unwrap_or(path.as_os_str())`: the last component, or the path itself when there is none
+                    uo = [c for c in alt.call_nodes() if c.a["name"] == "unwrap_or"]
+                    if len(uo) == 1 and len(uo[0].kids) == 2:
+                        k0, k1 = [k_.strip() for k_ in uo[0].kids]
+                        ok = [c.a["name"] for c in k0.call_nodes()] == ["file_name", "path"] and [c.a["name"] for c in k1.call_nodes()] in (["as_os_str", "path"], ["path"]) and any(c.a["callee"].endswith("WalkEntry::path") for c in k1.call_nodes())
                 if not ok and dot == ["."] and set(names) <= {"join", "new", "file_name", "path", "as_ref", "deref", "map_or"}:
                     # `path.file_name().map_or(path, Path::new)`: the last component, or the path itself when there is none
                     mo = [c for c in alt.call_nodes() if c.a["name"] == "map_or"]
